@@ -32,7 +32,7 @@ def _limit_as(nbytes):
     return f
 
 
-def sfs(args, stdin=None, kind="release", env=None, timeout=30, exe=None, cwd=None, mem_limit=None):
+def sfs(args, stdin=None, kind="release", env=None, timeout=30, exe=None, cwd=None, mem_limit=None, stderr_path=None):
     """Run `sfs args...`; stdin: bytes or None (=/dev/null). Never raises on failure of the tool.
     mem_limit: optional RLIMIT_AS in bytes for the child."""
     exe = exe or build.cli(kind)
@@ -41,6 +41,11 @@ def sfs(args, stdin=None, kind="release", env=None, timeout=30, exe=None, cwd=No
         e.update(env)
     argv = [exe] + [str(a) for a in args]
     try:
+        if stderr_path:
+            # stderr goes to a device/file of the caller's choice (e.g. /dev/full): nothing can be read back from it
+            with open(stderr_path, "wb") as ef:
+                p = subprocess.run(argv, input=stdin if stdin is not None else b"", stdout=subprocess.PIPE, stderr=ef, env=e, timeout=timeout, cwd=cwd)
+            return Run(argv[1:], p.returncode, p.stdout, b"", stdin=stdin, env=env, kind=kind)
         p = subprocess.run(argv, input=stdin if stdin is not None else b"", stdout=subprocess.PIPE,
                            stderr=subprocess.PIPE, env=e, timeout=timeout, cwd=cwd,
                            preexec_fn=_limit_as(mem_limit) if mem_limit else None)
